@@ -550,6 +550,12 @@ impl<'a> Exec<'a> {
                     return self.skip_c("fresh_failed");
                 }
             }
+            if !r.is_stopped() {
+                let fb = r.compute_ff_bytes().map(|b| b.len()).unwrap_or(0);
+                if fb >= 50_000 || hist.len() >= 6000 {
+                    return self.skip_c("unbounded_forcing");
+                }
+            }
             if r.is_stopped() {
                 return Err(self.viol(
                     "stop_iff_complete",
